@@ -275,11 +275,19 @@ def pinned_nonzero(ctx):
     return first
 
 
+def stepped_bias(t):
+    """a bias that changes in steps during the run (a staircase I-V sweep)"""
+    i_ = 1.0 + 0.5 * np.floor(t / 0.004)
+    return {"source": i_, "drain": -i_}
+
+
 def devices(ctx):
     dev = zoo.make_device("bar", ctx.rng, max_edge_length=1.0)
     weak = dict(applied_vector_potential=0.3, terminal_currents={"source": 2.0, "drain": -2.0})
     strong = dict(applied_vector_potential=2.5, terminal_currents={"source": 40.0, "drain": -40.0})
-    return dev, [("weak", weak), ("strong", strong)]
+    # a time-dependent bias: what the drive does must not enter the step-size rule except through max|change of |psi|^2|
+    stepped = dict(applied_vector_potential=0.3, terminal_currents=stepped_bias)
+    return dev, [("weak", weak), ("strong", strong), ("stepped_bias", stepped)]
 
 
 def seeded_bounds(ctx):
@@ -322,7 +330,7 @@ def run(ctx):
     for st in sts:
         for dname, kw in drives:
             for kind in ("none", "bursts", "exhaust"):
-                if ctx.quick and dname == "strong" and kind == "exhaust":
+                if ctx.quick and dname in ("strong", "stepped_bias") and kind == "exhaust":
                     continue
                 eval_run(ctx, dev, kw, st, kind, nsteps)
                 ctx.count(f"drive:{dname}")
